@@ -544,13 +544,34 @@ pub fn cycles(seed: u64, count: usize) -> Report {
             s.write_all(&vec![5u8; sz]).unwrap();
             desc.push_str(&format!("{} ", sz));
         }
+        // holes: some of the prefix streams are removed again, in a random order, so that
+        // the free lists start out non-empty and unordered
+        if nprefix > 0 && rng.chance(1, 2) {
+            let mut idx: Vec<usize> = (0..nprefix).filter(|_| rng.chance(1, 2)).collect();
+            for j in (1..idx.len()).rev() {
+                let r = rng.below(j as u64 + 1) as usize;
+                idx.swap(j, r);
+            }
+            desc.push_str(&format!("| removed {:?} ", idx));
+            for k in idx {
+                c.remove_stream(format!("/p{}", k)).unwrap();
+            }
+        }
         // cycle: a list of (create+write sizes) then removal of all of them
-        let ncyc = 1 + rng.below(4) as usize;
+        let ncyc = 1 + rng.below(5) as usize;
         let sizes: Vec<usize> = (0..ncyc)
             .map(|_| *rng.pick(&[0usize, 1, 64, 100, 512, 513, 2000, 4095, 4096, 5000, 20000]))
             .collect();
         let use_storage = rng.chance(1, 3);
         let overwrite = rng.chance(1, 3);
+        // removal order of the cycle's streams: fixed per case, any permutation
+        let mut order: Vec<usize> = (0..ncyc).collect();
+        if rng.chance(2, 3) {
+            for j in (1..order.len()).rev() {
+                let r = rng.below(j as u64 + 1) as usize;
+                order.swap(j, r);
+            }
+        }
         // a persistent small stream that each repetition rewrites from offset 0 with a large
         // write through a fresh handle (mini -> regular migration) and then shrinks back
         let rewrite_persistent = rng.chance(1, 2);
@@ -560,7 +581,7 @@ pub fn cycles(seed: u64, count: usize) -> Report {
         }
         let keep_len = if rewrite_persistent { c.entry("/keep").unwrap().len() } else { 0 };
         let big_len = *rng.pick(&[4096usize, 5000, 9000]); // fixed per case: every repetition is the same cycle
-        desc.push_str(&format!("] cycle{:?} storage={} overwrite={} rewrite_persistent={}", sizes, use_storage, overwrite, rewrite_persistent));
+        desc.push_str(&format!("] cycle{:?} remove-order{:?} storage={} overwrite={} rewrite_persistent={}", sizes, order, use_storage, overwrite, rewrite_persistent));
         let mut lens = Vec::new();
         for _rep in 0..5 {
             if use_storage {
@@ -598,7 +619,7 @@ pub fn cycles(seed: u64, count: usize) -> Report {
             if use_storage {
                 c.remove_storage_all("/cy").unwrap();
             } else {
-                for k in 0..sizes.len() {
+                for &k in order.iter() {
                     c.remove_stream(format!("/t{}", k)).unwrap();
                 }
             }
@@ -648,6 +669,7 @@ fn read_workload(
     contents: &[(String, Vec<u8>)],
     maxbuf: usize,
     fail_at: &[u64],
+    short_at: &[(u64, u8)],
     reference: Option<&Vec<String>>,
 ) -> (u64, Vec<String>, Vec<String>) {
     let b = SharedBuf::new(image.to_vec());
@@ -656,6 +678,7 @@ fn read_workload(
         ctl.fail_kinds = [true, false, true, false];
         ctl.seq = 0;
         ctl.fail_at = fail_at.to_vec();
+        ctl.short_at = short_at.to_vec();
     }
     let mut bad = Vec::new();
     let mut log: Vec<String> = Vec::new();
@@ -813,7 +836,7 @@ pub fn readfaults(seed: u64, pairs: usize, shard: u64, nshards: u64) -> Report {
     for v in [Version::V3, Version::V4] {
         let (image, contents) = build_sample_image(v);
         for &maxbuf in &[1024usize, 4096] {
-            let (n, bad0, reference) = read_workload(&image, &contents, maxbuf, &[], None);
+            let (n, bad0, reference) = read_workload(&image, &contents, maxbuf, &[], &[], None);
             for b in bad0 {
                 rep.fail(format!("readfaults {:?} maxbuf={} fault-free: {}", v, maxbuf, b));
             }
@@ -824,7 +847,7 @@ pub fn readfaults(seed: u64, pairs: usize, shard: u64, nshards: u64) -> Report {
                 }
                 rep.evaluations += 1;
                 rep.distinct.insert(format!("{:?}-{}-{}", v, maxbuf, k));
-                let r = catch_unwind(AssertUnwindSafe(|| read_workload(&image, &contents, maxbuf, &[k], Some(&reference))));
+                let r = catch_unwind(AssertUnwindSafe(|| read_workload(&image, &contents, maxbuf, &[k], &[], Some(&reference))));
                 match r {
                     Ok((_, bad, _)) => {
                         for b in bad {
@@ -834,12 +857,36 @@ pub fn readfaults(seed: u64, pairs: usize, shard: u64, nshards: u64) -> Report {
                     Err(_) => rep.fail(format!("readfaults {:?} maxbuf={} fault at raw call {}: PANIC", v, maxbuf, k)),
                 }
             }
+            // a short (non-zero) count instead of an error at call k, alone and
+            // followed by an error at a later call: a legal behaviour of any
+            // reader, after which results must still equal the fault-free ones
+            for k in 0..n {
+                if k % nshards != shard {
+                    continue;
+                }
+                for mode in 0..3u8 {
+                    let later = k + 1 + rng.below(6);
+                    for fa in [vec![], vec![later]] {
+                        rep.evaluations += 1;
+                        rep.distinct.insert(format!("{:?}-{}-short{}-{}-{:?}", v, maxbuf, k, mode, fa));
+                        let r = catch_unwind(AssertUnwindSafe(|| read_workload(&image, &contents, maxbuf, &fa, &[(k, mode)], Some(&reference))));
+                        match r {
+                            Ok((_, bad, _)) => {
+                                for b in bad {
+                                    rep.fail(format!("readfaults {:?} maxbuf={} short count (mode {}) at raw read call {} then faults at {:?}: {}", v, maxbuf, mode, k, fa, b));
+                                }
+                            }
+                            Err(_) => rep.fail(format!("readfaults {:?} maxbuf={} short count at raw call {} faults {:?}: PANIC", v, maxbuf, k, fa)),
+                        }
+                    }
+                }
+            }
             for _ in 0..pairs {
                 let a = rng.below(n);
                 let b2 = rng.below(n);
                 rep.evaluations += 1;
                 rep.distinct.insert(format!("{:?}-{}-{}-{}", v, maxbuf, a, b2));
-                let r = catch_unwind(AssertUnwindSafe(|| read_workload(&image, &contents, maxbuf, &[a, b2], Some(&reference))));
+                let r = catch_unwind(AssertUnwindSafe(|| read_workload(&image, &contents, maxbuf, &[a, b2], &[], Some(&reference))));
                 match r {
                     Ok((_, bad, _)) => {
                         for b in bad {
@@ -851,7 +898,7 @@ pub fn readfaults(seed: u64, pairs: usize, shard: u64, nshards: u64) -> Report {
             }
         }
     }
-    rep.samples.push("workload: open; walk; read_storage(/d); entry(/d); exists; for each of 5 streams: sequential read(700) with retry, seek+read x4; one injected read/seek fault per run".into());
+    rep.samples.push("workload: open; walk; read_storage(/d); entry(/d); exists; for each of 5 streams: sequential read(700) with retry, seek+read x4; one injected read/seek fault per run, pairs of faults, and a short non-zero count at each read call (1 byte / half / all but one) alone and followed by a fault".into());
     rep
 }
 
